@@ -126,5 +126,27 @@ CHECKS["C15"] = dict(
     design_ref="DESIGN.md §5 C15", note=_TERM_NOTE + " Strings and the order among distinct variables are not judged.",
     technique="TLA+ standard-order definition (TermAlgebra.tla) evaluated by TLC on recorded outcomes of the real builtins")
 
+CHECKS["C18"] = dict(
+    category="exploration",
+    text="All pairs and sampled triples of objects built with the public constructors and the parser (Term, "
+         "Constant(int|float|str), Var, Not with both spellings, list2term, Term.from_string; atoms vs quoted atoms, 1 vs '1' "
+         "vs 1.0, nested compounds): the recorded ==/hash matrices and ProbLog's own unify_value verdicts are judged by TLC "
+         "(JudgeTerms!JudgeEq): reflexive, symmetric, transitive, equal => equal hash, ground equal <=> unification-identical.",
+    design_ref="DESIGN.md §5 C18", note=_TERM_NOTE,
+    technique="TLA+ equivalence/hash-consistency laws evaluated by TLC on recorded equality and hash matrices")
+CHECKS["C16"] = dict(
+    category="exploration",
+    text="Every documented non-transcendental evaluable functor on a grid of integers and half-valued floats (all argument "
+         "pairs), random expression trees, the six arithmetic comparisons and between/3 in both modes are run on the real "
+         "engine; TLC judges value and result type against Arith.tla (truncating //, floor div/mod, rem = mod as documented, "
+         "round/integer half away from zero, float parts, shifts and bitwise ops, powers); division by zero must be a "
+         "ProbLog error; no internal exception may escape.",
+    design_ref="DESIGN.md §5 C16",
+    note="Trusted: TLC + spec/Arith.tla (exact arithmetic in quarters), expression renderer. Transcendental functions and "
+         "values off the quarter grid are not decided; '/', min, max, sign, **, ^ compared by value only (Yap/SWI differ on "
+         "type); Prolog type errors (float operand of //, mod, bitwise ops) are not required to be errors. The term-inspection "
+         "builtins (functor/3, arg/3, =../2, length/2, succ/2, plus/3, atom_number/2, type tests) are not yet covered.",
+    technique="TLA+ arithmetic semantics (Arith.tla) evaluated by TLC on recorded results of is/2 and comparisons")
+
 NOT_YET = "check not built yet in this round (planned in DESIGN.md §5); not claimed"
 NOT_APPLICABLE = {}
